@@ -81,7 +81,7 @@ class RaftNode(Entity):
         super().__init__(name)
         self._network = network
         self._peers: list[RaftNode] = list(peers) if peers else []
-        self._state_machine = state_machine or KVStateMachine()
+        self._state_machine = state_machine if state_machine is not None else KVStateMachine()
         self._election_timeout_min = election_timeout_min
         self._election_timeout_max = election_timeout_max
         self._heartbeat_interval = heartbeat_interval
